@@ -102,7 +102,7 @@ def C08(run):
 def C09(run):
     run.deductive(keys=[GATES[0], GATES[2], GATES[3], GATES[5], U + 'clifford_rotate', U + 'pauli_transform', PA + 'PauliList.rotate_by#state',
                         PA + 'PauliList.transform_by#state'], lemmas=MEASURE_LEMMAS)
-    run.bounded_check('c09_circuits', _b().c09_circuits, Nmax=3, programs=q(run, 40, 1500), maxlen=q(run, 5, 9))
+    run.bounded_check('c09_circuits', _b().c09_circuits, Nmax=3, programs=q(run, 40, 1500), maxlen=q(run, 5, 9), pack_len=q(run, 4, 5), pack_sample=q(run, 1500, 40000))
     return 'other', 'bounded: random gate programs in all 3x2x3 configurations against gate-by-gate application; locality of every gate'
 
 
@@ -127,7 +127,7 @@ def C12(run):
 
 def C13(run):
     from . import torchconf
-    run.bounded_check('c13_torch', torchconf.c13_torch, Nmax=q(run, 2, 2), count=q(run, 8, 120))
+    run.bounded_check('c13_torch', torchconf.c13_torch, Nmax=q(run, 2, 2), count=q(run, 8, 120), circuits=q(run, 30, 1500))
     return 'other', 'bounded conformance only (no VC generation for TorchScript / float tensors): every shared function on the same inputs, N <= 2'
 
 
@@ -164,7 +164,7 @@ def C17(run):
 
 def C18(run):
     run.deductive(keys=[U + 'front', U + 'pauli_is_onsite', U + 'pauli_diagonalize1'], lemmas=['acq_diff2', 'onsite_flat', 'acq_antisym'])
-    run.bounded_check('c18_diagonalize', _b().c18_diagonalize, Nmax=q(run, 3, 4), hams=q(run, 30, 800))
+    run.bounded_check('c18_diagonalize', _b().c18_diagonalize, Nmax=q(run, 3, 4), hams=q(run, 30, 800), big=q(run, 150, 4000))
     return 'other', ('deductive: front / pauli_is_onsite; bounded: diagonalize for all strings, signs, targets, causal on/off (N <= 3/4), '
                      'states, SBRG on commuting (exact) and arbitrary (diagonal form) Hamiltonians')
 
